@@ -68,10 +68,12 @@ def select__intersect_and_except_operators(self: XPathToken, context: ta.Context
     if context is None:
         raise self.missing_context()
 
-    s1, s2 = set(self[0].select(copy(context))), set(self[1].select(copy(context)))
-    if any(not isinstance(x, XPathNode) for x in s1) \
-            or any(not isinstance(x, XPathNode) for x in s2):
+    l1, l2 = list(self[0].select(copy(context))), list(self[1].select(copy(context)))
+    if any(not isinstance(x, XPathNode) for x in l1) \
+            or any(not isinstance(x, XPathNode) for x in l2):
         raise self.error('XPTY0004', 'only XPath nodes are allowed')
+
+    s1, s2 = set(l1), set(l2)
 
     if self.symbol == 'except':
         yield from cast(list[XPathNode], sorted(s1 - s2, key=node_position))
